@@ -412,7 +412,11 @@ func (g *Generator) generateUnwrapMapMarshal(
 	gf.P("for k, wrapper := range x.", fieldName, " {")
 	gf.P("if wrapper != nil {")
 
-	if isMessageType {
+	if unwrapMapField.UnwrapField.IsMapField {
+		// The wrapper is a root map unwrap message: its own MarshalJSON writes the bare map
+		gf.P("// The wrapper codes itself as the bare map (root map unwrap)")
+		gf.P("arrayData, err := json.Marshal(wrapper)")
+	} else if isMessageType {
 		// For message types, marshal each item with protojson
 		gf.P("// Marshal the unwrap field directly (the array)")
 		gf.P("items := make([]json.RawMessage, 0, len(wrapper.Get", unwrapFieldName, "()))")
@@ -591,6 +595,19 @@ func (g *Generator) generateUnwrapMapUnmarshal(
 	gf.P("return err")
 	gf.P("}")
 	gf.P("x.", fieldName, " = make(map[string]*", gf.QualifiedGoIdent(valueTypeIdent), ")")
+	if unwrapMapField.UnwrapField.IsMapField {
+		// The wrapper is a root map unwrap message: its own UnmarshalJSON reads the bare map
+		gf.P("for k, valueRaw := range mapRaw {")
+		gf.P("wrapper := &", valueTypeIdent, "{}")
+		gf.P("if err := json.Unmarshal(valueRaw, wrapper); err != nil {")
+		gf.P("return err")
+		gf.P("}")
+		gf.P("x.", fieldName, "[k] = wrapper")
+		gf.P("}")
+		gf.P("}")
+		gf.P()
+		return
+	}
 	gf.P("for k, arrayRaw := range mapRaw {")
 	gf.P("var itemsRaw []json.RawMessage")
 	gf.P("if err := json.Unmarshal(arrayRaw, &itemsRaw); err != nil {")
